@@ -260,9 +260,15 @@ func vfVTCheck(prop string, n *vfVTState, g vfGeom, ev string, before []vfCell, 
 	}
 	// C18 (grid console): the console must show the terminal's own viewport
 	if n.vt.state == StateActive {
+		// the viewport's line y is buffer line viewportY+y; taken modulo the number of buffer lines, so that a buffer
+		// organised as a ring of lines reads the same way as a linear one (for which the modulo never applies)
+		lines := uint32(len(n.vt.data)) / (3 * g.W)
+		if lines == 0 {
+			return "console-differs", "the terminal has no buffer"
+		}
 		for y := uint32(0); y < g.H; y++ {
 			for x := uint32(0); x < g.W; x++ {
-				o := ((n.vt.viewportY+y)*g.W + x) * 3
+				o := (((n.vt.viewportY+y)%lines)*g.W + x) * 3
 				want := vfCell{n.vt.data[o], n.vt.data[o+1], n.vt.data[o+2]}
 				if got := n.cons.cells[y*g.W+x]; got != want {
 					return "console-differs", fmt.Sprintf("active terminal: console cell (%d,%d) shows (%q,%d,%d), viewport holds (%q,%d,%d)", x+1, y+1, got.ch, got.fg, got.bg, want.ch, want.fg, want.bg)
